@@ -197,6 +197,51 @@ def _run_points(ctx, pts, batch=5000):
     runner.run_cases(cases, cfg="plain", on_result=on_result)
 
 
+def concurrent_stage(ctx):
+    """The two functions called from four threads at once (race-detector build), each thread working through tracks of a
+    different sample rate, as an importer with a thread pool does.  Every answer is judged like a single-threaded one, and
+    ThreadSanitizer watches for unsynchronised shared state."""
+    rates = [44100.0, 48000.0, 96000.0, 22050.0, 88200.0, 32000.0, 44100.5, 209.0]
+    ncase = 6 if ctx.tier == "quick" else 60
+    per = 1500 if ctx.tier == "quick" else 6000
+    cases, index = [], {}
+    for k in range(ncase):
+        lists = []
+        for t in range(4):
+            r = rates[(k + 2 * t) % len(rates)]
+            lists.append([(ctx.rng.randrange(0, 10 ** 9), r) for _ in range(per)])
+        cid = "mt%d" % k
+        index[cid] = lists
+        cases.append({"id": cid, "no_tz": True,
+                      "ops": [{"op": "mt_extents", "rounds": 6, "lists": [[[c, dbits(r)] for c, r in lst] for lst in lists]}]})
+
+    def on_result(res):
+        lists = index[res.case["id"]]
+        wit = {"concurrent": True, "threads": 4, "rates": [lst[0][1] for lst in lists], "points": [[c, dbits(r)] for c, r in lists[0][:20]]}
+        if res.crash:
+            ctx.count()
+            ctx.violation("concurrent-calls " + res.crash["kind"] + " at=" + res.crash["site"],
+                          "calling the extents functions from four threads at once: " + res.crash["kind"] + " in " + res.crash["site"] +
+                          " :: " + res.crash.get("stderr", "")[:600].replace("\n", " | "), dict(wit, crash=res.crash["kind"]))
+            return
+        ev = res.events[0]
+        if "exc" in ev:
+            ctx.violation("concurrent-calls throws " + ev["exc"]["type"], "threw " + ev["exc"]["type"], wit)
+            return
+        ctx.bump("concurrent_cases")
+        for lst, out in zip(lists, ev["ret"]):
+            ctx.bump("concurrent_calls_judged", len(lst))
+            nv = len(ctx.viol)
+            judge_batch(ctx, lst, out)
+            if len(ctx.viol) > nv:
+                ctx.violation("concurrent-calls wrong-answer", "an answer given while other threads were calling the same functions with "
+                              "other rates is wrong (see the accompanying key)", wit)
+
+    runner.run_cases(cases, cfg="tsan", on_result=on_result, stall_timeout=300)
+    if not ctx.extra.get("concurrent_cases") and not any(k.startswith("concurrent-calls") for k in ctx.viol):
+        ctx.fail_harness("the concurrent stage did not run")
+
+
 def run(ctx):
     n = 200000 if ctx.tier == "quick" else 4000000
     pts = gen_points(ctx.rng, n)
@@ -206,10 +251,14 @@ def run(ctx):
     ctx.assumptions += ["Python int arithmetic and int/int true division (correctly rounded) are the exact reference",
                         "every double is a sample rate (negative, NaN and infinite ones included); counts 0..2^62"]
     _run_points(ctx, pts)
+    concurrent_stage(ctx)
 
 
 def replay(ctx, doc):
     r = doc["replay"]
+    if r.get("concurrent"):
+        concurrent_stage(ctx)
+        return
     if "points" in r:
         pts = [(c, undbits(h)) for c, h in r["points"]]
     else:
